@@ -602,6 +602,8 @@ class Folder:
                 return [x for a in seqs for x in a]  # the concatenation, as a list (a folded loop only iterates it)
         if isinstance(f, ExtVal) and not f.called and f.name in ("typing.cast", "t.cast") and len(args) == 2 and not kwargs:
             return args[1]  # cast(T, v) is v
+        if isinstance(f, ExtVal) and not f.called and f.name in ("types.MappingProxyType", "MappingProxyType") and len(args) == 1 and not kwargs and isinstance(args[0], dict):
+            return args[0]  # a read-only view of the mapping: every read answers what the mapping answers
         if isinstance(f, ExtVal):
             if f.name == "collections.OrderedDict" and not f.called and not any(is_unknown(a) or isinstance(a, ExtVal) for a in list(args) + list(kwargs.values())):
                 try:  # an insertion-ordered mapping: the folder's dict is one
